@@ -48,7 +48,7 @@ def r18_1(ctx, rr):
     # constructors
     for path in (r"^utils::sig_store::new_offline$", r"^utils::sig_store::new_online$"):
         c = F.one(path)
-        ren = param_names(c)
+        ren = param_roles(c, ["buckets_high_bits", "max_shard_high_bits", "expected_num_keys"])
         sl = struct_literal_fields(F, c)
         sl = [s for s in sl if "buckets_mask" in s]
         if len(sl) != 1:
@@ -228,3 +228,53 @@ def r18_4(ctx, rr):
                 why = "read loop found but %s" % ("the remaining count does not start at buf_sizes[next_bucket]" if not init_ok else "each round must read min(buffer, remaining) pairs into a buffer of that length and subtract that amount")
     rr.instances += 1
     rr.check(ok, "ShardIterator::next[file]:split-read-loop", "the file-backed split must read the whole bucket: %s" % why, b.span)
+
+
+@rule("R18.5", props=["C18"], floor=2, title="file-backed shard iterator: a bucket file is read from its start (seek to 0 on the same bucket first) and only with read_exact (a short read is an error, never a shorter shard)")
+def r18_5(ctx, rr):
+    """Each pass over a bucket file must be self-contained: positioned at offset 0 by the pass itself (an
+    earlier, abandoned pass leaves the file anywhere) and read in full. `Read::read` may return fewer
+    bytes than asked; with its count ignored the rest of the shard is whatever the buffer held."""
+    F = ctx.F()
+    bs = [b for b in F.find(r"^<utils::sig_store::ShardIterator<S, V, .*, T> as std::iter::Iterator>::next$") if "BufReader" in b.key]
+    if len(bs) != 1:
+        raise AnchorMissing("expected the file-backed ShardIterator::next")
+    b = bs[0]
+    T = Termizer(F, b)
+    order = list(walk(b.body))
+    pos = {id(n): i for i, n in enumerate(order)}
+    pm = {id(n): ps for n, ps in walk_with_parents(b.body)}
+    reads = [n for n in order if n.get("k") == "MethodCall" and n["name"] in ("read", "read_exact", "read_to_end", "read_buf") and mentions(T.term(n["recv"]), lambda x: x[0] == "field" and x[2] == "buckets")]
+    seeks = [n for n in order if n.get("k") == "MethodCall" and n["name"] in ("seek", "rewind") and mentions(T.term(n["recv"]), lambda x: x[0] == "field" and x[2] == "buckets")]
+    if len(reads) < 2:
+        raise AnchorMissing("file-backed ShardIterator::next: expected a bucket read in each of the two branches, found %d" % len(reads))
+    for r in reads:
+        rr.instances += 1
+        key = "ShardIterator(file)::next:read-exact"
+        ok = r["name"] == "read_exact"
+        rr.ob(ok, key=key + r["name"])
+        if not ok:
+            rr.violate(key, "the bucket file is read with `%s` (`%s`): a short read is not an error there, and its byte count is not used, so a truncated bucket yields a shard whose tail was never read" % (r["name"], show(F, r)[:90]), F.loc(r))
+        # a seek to the start of the same bucket dominates the read: it precedes it and sits in a block
+        # that encloses the read (possibly outside the read loop, never in a sibling branch or after it)
+        rt = T.term(r["recv"])
+        ok2 = False
+        for s in seeks:
+            if T.term(s["recv"]) != rt or pos[id(s)] > pos[id(r)]:
+                continue
+            start0 = s["name"] == "rewind" or ("SeekFrom::Start" in show(F, s["args"][0]) and any(x.get("k") == "Lit" and x.get("v") == "0" for x in walk(s["args"][0])))
+            if not start0:
+                continue
+            sblocks = [p for p in pm[id(s)] if p.get("k") == "Block"]
+            rblocks = [p for p in pm[id(r)] if p.get("k") == "Block"]
+            if sblocks and any(sblocks[-1] is x for x in rblocks):
+                # not guarded by a condition the read is not under
+                conds_s = [p for p in pm[id(s)] if p.get("k") == "If"]
+                conds_r = [p for p in pm[id(r)] if p.get("k") == "If"]
+                if all(any(c is d for d in conds_r) for c in conds_s):
+                    ok2 = True
+        rr.instances += 1
+        key2 = "ShardIterator(file)::next:seek-start-before-read"
+        rr.ob(ok2, key=key2)
+        if not ok2:
+            rr.violate(key2, "`%s` is not preceded, in the same pass, by a seek of that bucket to offset 0: a pass that follows an abandoned one (a borrowed iteration dropped early) starts reading wherever the file was left" % show(F, r)[:90], F.loc(r))
